@@ -3,6 +3,8 @@ package main
 // C17: Entry.Find for a list of (start position, path) queries on one processed module set.
 //
 //   find17 <opts> <n> (<namehex> <texthex>){n} <nq> (<start module hex> <nsteps> step* <path hex>){nq}
+//     a name token written @<hex> puts the text into a directory of the search path (Modules.AddPath) instead of
+//     parsing it: the module is then found only while Process resolves imports and includes
 //     opts: c, n as for process; l = after Process and after the module trees have been collected, load an unrelated
 //     module, a rejected text and a missing file WITHOUT calling Process again, then run the queries
 //     step = C<hex> (child of Dir) | I (RPC.Input) | O (RPC.Output); the start module may be a submodule
@@ -15,6 +17,8 @@ package main
 
 import (
 	"encoding/json"
+	"os"
+	"path/filepath"
 	"strconv"
 	"strings"
 
@@ -58,9 +62,32 @@ func runFind17(toks []string) string {
 	ms.ParseOptions.DeviateOptions.IgnoreDeviateNotSupported = strings.Contains(opts, "n")
 	out := &find17Out{Loads: []string{}, Runs: []*runDump{}, Find: []string{}}
 	pos := 2
+	pathDir := ""
+	defer func() {
+		if pathDir != "" {
+			os.RemoveAll(pathDir)
+		}
+	}()
 	for i := 0; i < n; i++ {
-		name, text := string(unhex(toks[pos])), string(unhex(toks[pos+1]))
+		onPath := strings.HasPrefix(toks[pos], "@")
+		name, text := string(unhex(strings.TrimPrefix(toks[pos], "@"))), string(unhex(toks[pos+1]))
 		pos += 2
+		if onPath {
+			// not loaded by the caller: only found on the search path while Process resolves imports and includes
+			if pathDir == "" {
+				d, err := os.MkdirTemp("", "verifc17path")
+				if err != nil {
+					return "BROKEN tempdir: " + err.Error()
+				}
+				pathDir = d
+				ms.AddPath(pathDir)
+			}
+			if err := os.WriteFile(filepath.Join(pathDir, filepath.Base(name)), []byte(text), 0o644); err != nil {
+				return "BROKEN write: " + err.Error()
+			}
+			out.Loads = append(out.Loads, "ok")
+			continue
+		}
 		if err := ms.Parse(text, name); err != nil {
 			out.Loads = append(out.Loads, "err: "+strings.SplitN(err.Error(), "\n", 2)[0])
 		} else {
